@@ -503,6 +503,9 @@ func init() {
 			// odd but legal types and names from the malformed grammar reach the labels
 			g.ft.MalRate = []float64{0, 0.05, 0.15}[g.r.Intn(3)]
 			g.ft.VisAfterInvoke = 0.6
+			if g.r.Intn(4) == 0 {
+				g.tmpl = (*genCtx).tmplGroupFailure
+			}
 		}, Mix{Scope: 2, Provide: 12, Decorate: 1, Invoke: 6, VisStr: 6}),
 		Eval: evalSimple("C19", func(c *Checked) bool {
 			return c.Probes["dot_clusters>=3"] > 0 || c.Probes["dot_error_depth>=2"] > 0
